@@ -138,6 +138,10 @@ def templates(tier, seed):
         tds.append(dict(fam="malformed", case=m))
     for v in RANDOM_VARIANTS:
         tds.append(dict(fam="random-once", variant=v))
+    for i in range(0, len(FORMAT_CASES), 12):
+        tds.append(dict(fam="format", lo=i, hi=min(i + 12, len(FORMAT_CASES))))
+    for c in SPECIAL_CMP:
+        tds.append(dict(fam="special", expr=c[0], want=c[1]))
     return tds
 
 
@@ -215,7 +219,16 @@ MALFORMED = {
     "arity-clamp": "{{clamp([[0]], 1)}}", "undefined-var": "{{$nope + [[0]]}}", "dangling-op": "{{[[0]] +}}", "double-op": "{{[[0]] * / 2}}", "empty-parens": "{{[[0]] + ()}}",
     "circular": None, "self-ref": None, "trailing": "{{[[0]] 2}}", "arity-mix": "{{mix([[0]], 1)}}", "select-range": "{{select(5, [[0]], 1)}}",
 }
-RANDOM_VARIANTS = ["geom", "text", "circle-r", "var", "if", "comment", "relpos", "g-attr", "two-in-one", "loop-body", "reuse-attr",
+# results are printed with at most three decimals, without trailing zeros, integers without a fraction (property C14 via C09:
+# "exact up to the 3-decimal output rounding"); the expected strings are computed by an independent formatter (engine.fstr_py)
+FORMAT_CASES = ["20.0004", "30.0004", "1000.0002", "-50.0003", "91.0004", "0.5", "0.125", "0.1", "2.5", "1234.5678", "0.0004", "-0.0004", "100", "1000000", "3000000000", "-3000000000", "16777216",
+                "10.10", "10.01", "10.001", "10.0001", "1.0005", "7.9996", "99.9996", "199.99951", "0.999", "0.9996", "-0.9996", "40", "400", "4000", "40000.5", "123456.789", "0.001", "0.002",
+                "12.340", "12.300", "12.000", "-12.000", "5e0" if False else "5", "250.0001", "60.00049", "70.0004", "80.0003", "90.0002", "110.0001", "120.0004", "0.05", "0.005", "0.0005"]
+# IEEE semantics with NaN / infinite operands: every ordered comparison with NaN is false, ne is true
+SPECIAL_CMP = [("sqrt(-1) le 0", "0"), ("sqrt(-1) ge 0", "0"), ("sqrt(-1) lt 0", "0"), ("sqrt(-1) gt 0", "0"), ("sqrt(-1) eq sqrt(-1)", "0"), ("sqrt(-1) ne 0", "1"), ("0 le sqrt(-1)", "0"), ("0 ge sqrt(-1)", "0"),
+               ("1/0 gt 1000000", "1"), ("-1/0 lt -1000000", "1"), ("1/0 ge 1/0", "1"), ("1/0 le 1/0", "1"), ("1/0 eq 1/0", "1"), ("0/0 le 1/0", "0"), ("0/0 ge -1/0", "0"),
+               ("le(sqrt(-1), 0)", "0"), ("ge(sqrt(-1), 0)", "0"), ("lt(0/0, 1)", "0"), ("gt(0/0, 1)", "0"), ("not(0/0)", "0"), ("if(0/0, 1, 2)", "1"), ("(0/0 le 1) or (1 le 2)", "1"), ("(0/0 ge 1) and 1", "0")]
+RANDOM_VARIANTS = ["loop-count-random", "loop-count-random3", "for-data-random", "while-random", "geom", "text", "circle-r", "var", "if", "comment", "relpos", "g-attr", "two-in-one", "loop-body", "reuse-attr",
                    "randint", "randint-same", "randint-frac", "randint-neg", "random-in-expr", "randint-in-cond"]
 
 
@@ -381,6 +394,33 @@ def build(td, wrong=False):
         def check(r):
             return [Obl(f"malformed-{case}-fails", PASS if r.status == "err" else FAIL, ground=True, note=r.status + " " + (r.output or "")[:150])]
         return Template(f"malformed/{case}", doc, [(3, *V)], check, family="malformed", role=f"C14/malformed/{case}", cap=2)
+    if fam == "format":
+        cases = FORMAT_CASES[td["lo"]:td["hi"]]
+        doc = "<svg>" + "".join(f'<rect wh="1" data-v="{{{{{c}}}}}" data-w="{{{{{c} + 0}}}}"/>' for c in cases) + f'<rect xy="[[0]] 0" wh="1"/></svg>'
+
+        def check_fmt(r):
+            if r.status != "ok":
+                return [Obl("transform-ok", FAIL, ground=True, note=r.docs[0]["msg"][:200])]
+            import struct as _st
+            o = Out(r.output)
+            els = [e for e in o.by_tag("rect") if e.get("data-v") is not None]
+            obls = []
+            for c, e in zip(cases, els):
+                f32v = _st.unpack(">f", _st.pack(">f", float(c)))[0]
+                want = fstr_py(f32v)
+                for a in ("data-v", "data-w"):
+                    obls.append(Obl(f"format({c})", PASS if e.get(a) == want else FAIL, ground=True, note=f"{e.get(a)!r} expected {want!r}"))
+            return obls
+        return Template(f"format/{td['lo']}", doc, [(3, *V)], check_fmt, family="result-formatting", role="C14/format", cap=2)
+    if fam == "special":
+        doc = f'<svg><rect xy="[[0]] 0" wh="1" data-v="{{{{{td["expr"]}}}}}"/></svg>'
+
+        def check_sp(r):
+            if r.status != "ok":
+                return [Obl("transform-ok", FAIL, ground=True, note=r.docs[0]["msg"][:200])]
+            got = Out(r.output).by_tag("rect")[0].get("data-v")
+            return [Obl(f"ieee({td['expr']})", PASS if got == td["want"] else FAIL, ground=True, note=f"{got!r} expected {td['want']!r}")]
+        return Template(f"special/{td['expr']}", doc, [(3, *V)], check_sp, family="nan-inf-comparisons", role="C14/special", cap=2)
     if fam == "random-once":
         v = td["variant"]
         R = "{{random()}}"
@@ -390,10 +430,13 @@ def build(td, wrong=False):
                "two-in-one": f'<rect xy="{R} 0" wh="1" data-x="{R}"/>', "loop-body": f'<loop count="2"><rect xy="{R} 0" wh="1"/></loop>',
                "reuse-attr": f'<specs><rect id="t" wh="$w 1"/></specs><reuse href="#t" w="{R}"/>',
                # every occurrence of a random function draws exactly once, whatever its arguments evaluate to
+               # loop control expressions are occurrences too: evaluated once per loop (count) / once per test (while)
+               "loop-count-random": '<loop count="{{randint(2, 2)}}"><rect wh="1"/></loop>', "loop-count-random3": '<loop count="{{randint(3, 3) - 2}}"><rect wh="2"/></loop>',
+               "for-data-random": '<for var="q" data="randint(5, 5), 7"><rect wh="$q"/></for>', "while-random": '<var n="0"/><loop while="lt($n, 1) and ge(random(), 0)"><var n="1"/></loop>',
                "randint": '<rect wh="1" data-i="{{randint(1, 6)}}"/>', "randint-same": '<rect wh="1" data-i="{{randint(3, 3)}}"/>',
                "randint-frac": '<rect wh="1" data-i="{{randint(2.2, 2.9)}}"/>', "randint-neg": '<rect wh="1" data-i="{{randint(-4, -4)}}"/>',
                "random-in-expr": '<rect wh="1" data-i="{{0 * random() + 1}}"/>', "randint-in-cond": '<if test="{{randint(0, 0)}}"><circle r="1"/></if>'}[v]
-        draws = {"two-in-one": 2, "loop-body": 2}.get(v, 1)
+        draws = {"two-in-one": 2, "loop-body": 2, "while-random": 2}.get(v, 1)
         base_mid = "".join(f'<rect wh="1" data-m{j}="{R}"/>' for j in range(draws))
         d0 = f"<svg>{probe(1)}{mid}{probe(2)}{probe(3)}</svg>"
         d1 = f"<svg>{probe(1)}{base_mid}{probe(2)}{probe(3)}</svg>"
